@@ -41,16 +41,79 @@ def _tokens(cls, attr):
         return [v] if v else []
     if attr == "annotation":
         return ["ann:" + _sha(v)] if v else []
-    if attr in ("imports", "symbols", "functions"):
+    if attr == "symbols":
+        # str(Symbol) leaves the declaration's modifier (and with it the declared value) out
+        return ["%s:%s" % (k, _sha(str(x) + str(x.class_modification))) for k, x in v.items()]
+    if attr in ("imports", "functions"):
         return ["%s:%s" % (k, _sha(x)) for k, x in v.items()]
     if attr == "extends":
-        return ["%s:%s" % (e.component, _sha(e)) for e in v]
+        return ["%s:%s" % (e.component, _sha(str(e) + str(e.class_modification))) for e in v]
     return [_sha(e) for e in v]
+
+
+BUILTIN = ("Real", "Integer", "String", "Boolean")
+
+
+def qrefs(node):
+    """Qualified component references (outermost references with at least two identifiers) below
+    `node`, in the order pymoca's own TreeWalker meets them - what tree.ConstantReferenceApplier
+    (tree.py:936-955) tries to resolve as package constants."""
+    import pymoca.tree as T
+    out = []
+
+    class L(T.TreeListener):
+        def __init__(self):
+            self.depth = 0
+            super().__init__()
+
+        def enterComponentRef(self, tree):
+            self.depth += 1
+            if self.depth == 1 and tree.child:
+                out.append([str(x) for x in tree.to_tuple()])
+
+        def exitComponentRef(self, tree):
+            self.depth -= 1
+
+    T.TreeWalker().handle_walk(L(), node)
+    return out
+
+
+def _infos(cls, attr):
+    """Structured content behind each token of _tokens(cls, attr), for the flattening model."""
+    import pymoca.ast as ast
+    v = getattr(cls, attr)
+    if attr == "symbols":
+        res = []
+        for k, sym in v.items():
+            ty = [str(x) for x in sym.type.to_tuple()] if isinstance(sym.type, ast.ComponentRef) else ["?"]
+            vrefs, mrefs = [], []
+            for a, val in sym.__dict__.items():
+                if a == "type":
+                    continue
+                (mrefs if a == "class_modification" else vrefs).extend(qrefs(val))
+            res.append({"n": k, "ty": ty, "b": ty[0] in BUILTIN, "v": vrefs, "m": mrefs})
+        return res
+    if attr == "extends":
+        return [{"base": [str(x) for x in e.component.to_tuple()], "m": qrefs(e.class_modification)} for e in v]
+    if attr == "imports":
+        res = []
+        for k, imp in v.items():
+            if k == "*":
+                res.append({"k": k, "star": True})
+            elif isinstance(imp, ast.ImportClause):
+                res.append({"k": k, "t": [str(x) for x in imp.components[0].to_tuple()]})
+            else:
+                res.append({"k": k, "t": [str(x) for x in imp.to_tuple()]})
+        return res
+    if attr in ("initial_equations", "equations", "initial_statements", "statements"):
+        return [qrefs(e) for e in v]
+    return None
 
 
 def dump(cls):
     return {"n": cls.name, "t": cls.type,
             "a": [_tokens(cls, a) for a in ATTRS],
+            "i": [_infos(cls, a) for a in ATTRS],
             "f": [bool(getattr(cls, f)) for f in FLAGS],
             "c": [dump(c) for c in cls.classes.values()],
             "k": list(cls.classes.keys())}
@@ -70,6 +133,7 @@ def flat_result(blob, model):
         c = flat.classes[model]
         return {"full": _sha(c) + _sha([str(e) for e in c.equations]) + _sha([str(s) for s in c.symbols.values()]),
                 "sha": _sha_no(c), "symbols": list(c.symbols.keys()),
+                "vars": [[k, str(s.type), "constant" in s.prefixes] for k, s in c.symbols.items()],
                 "values": ["%s=%s" % (k, _sha_no(s)) for k, s in c.symbols.items()],
                 "eqs": [_sha_no(e) for e in c.equations],
                 "init": [_sha_no(e) for e in c.initial_equations],
